@@ -440,7 +440,10 @@ impl Vm {
               let mut stdio = self.io().stdio();
               let stderr = stdio.stderr();
               writeln!(stderr, "Fatal error deadlock.").expect("Unable to write to stderr");
-              return ExecutionResult::RuntimeError;
+
+              // no error object exists for a deadlock, end the program instead of
+              // reporting a runtime error a native caller would try to read
+              return ExecutionResult::Exit(1);
             },
           },
           ExecutionSignal::RuntimeError => match self.fiber.error() {
